@@ -198,10 +198,6 @@ package modcache
 //@ spec func quoted(p string) string
 //@ spec func hasPrefixS(s string, prefix string) bool
 //@ spec func globbed(p string, pattern string) bool
-//@ func path/filepath.Base
-//@   assumed A-ext filepath.Base
-//@   pure
-//@   ensures result == fbase(path)
 //@ func quoteGlob
 //@   assumed A-int: escapes the glob metacharacters of a directory name
 //@   pure
@@ -273,8 +269,8 @@ package modcache
 //@   callsite os.Rename#0 contract renameZipEffect
 //@   requires held && CIz() && tmpState == 0
 //@   loop 0 invariant -1 <= rangeindex && held && zipState == old(zipState) && tmpState == 0
-//@   loop 0 invariant forall k int :: {old[k]} 0 <= k && k < len(old) ==> fdir(old[k]) == filepath.Dir(zipfile) && hasPrefixS(fbase(old[k]), fbase(zipfile))
-//@   effect os.Remove#0 requires held && fdir(arg0) == filepath.Dir(zipfile) && hasPrefixS(fbase(arg0), fbase(zipfile))
+//@   loop 0 invariant forall k int :: {old[k]} 0 <= k && k < len(old) ==> fdir(old[k]) == filepath.Dir(zipfile) && hasPrefixS(fbase(old[k]), filepath.Base(zipfile))
+//@   effect os.Remove#0 requires held && fdir(arg0) == filepath.Dir(zipfile) && hasPrefixS(fbase(arg0), filepath.Base(zipfile))
 //@   effect os.Rename#0 requires arg1 == zipfile
 //@   always CIz()
 //@   ensures [complete] result == nil ==> zipState == 2
